@@ -5,6 +5,7 @@ import (
 	"errors"
 	"fmt"
 	"net/url"
+	"reflect"
 	"strings"
 	"time"
 
@@ -26,6 +27,13 @@ func leakCheck(c *Ctx, op string, err error, secretText string, key []byte, acce
 	for e := err; e != nil; e = errors.Unwrap(e) {
 		texts = append(texts, e.Error())
 	}
+	// "contains" is read broadly: what a logger or an API layer would emit for the error value
+	// (%+v, %#v, JSON encoding) and any exported string / byte-slice field reachable from it
+	texts = append(texts, fmt.Sprintf("%+v", err), fmt.Sprintf("%#v", err))
+	if jb, jerr := json.Marshal(err); jerr == nil {
+		texts = append(texts, string(jb))
+	}
+	texts = append(texts, exportedStrings(reflect.ValueOf(err), 0)...)
 	txt := strings.Join(texts, "\n")
 	c.R.Count("error_texts_scanned", 1)
 	c.R.Nontrivial("errtext|" + op + "|" + txt)
@@ -99,6 +107,36 @@ func judgeWasmV(c *Ctx, k wasmVCase) {
 			c.R.Violate("C13|ValidateOTPWasm|verdict|", "ValidateOTPWasm's verdict differs from equality with the RFC 4226 code", "wasmv", k, fmt.Sprint(want), fmt.Sprintf("(%v, %v)", ok, err))
 		}
 	}
+}
+
+// exportedStrings collects exported string and []byte fields reachable from an error value (depth-limited).
+func exportedStrings(v reflect.Value, depth int) []string {
+	if depth > 4 || !v.IsValid() {
+		return nil
+	}
+	switch v.Kind() {
+	case reflect.Interface, reflect.Pointer:
+		if v.IsNil() {
+			return nil
+		}
+		return exportedStrings(v.Elem(), depth+1)
+	case reflect.Struct:
+		var out []string
+		for i := 0; i < v.NumField(); i++ {
+			if !v.Type().Field(i).IsExported() {
+				continue
+			}
+			out = append(out, exportedStrings(v.Field(i), depth+1)...)
+		}
+		return out
+	case reflect.String:
+		return []string{v.String()}
+	case reflect.Slice:
+		if v.Type().Elem().Kind() == reflect.Uint8 {
+			return []string{string(v.Bytes()), hexs(v.Bytes())}
+		}
+	}
+	return nil
 }
 
 type genFailCase struct {
